@@ -1,7 +1,8 @@
 """C08 — staged changes and other objects never touch committed data."""
 from vlib import histprop, oracles, hist
 from vlib.props import _hist_common as hc
-from vlib.props._hist_common import TRUSTED_BASE, ASSUMPTIONS, CORRESPONDENCE, BUDGET
+from vlib.props._hist_common import TRUSTED_BASE, ASSUMPTIONS, CORRESPONDENCE
+BUDGET = {"quick": dict(hc.BUDGET["quick"], histories=350), "thorough": hc.BUDGET["thorough"]}
 
 RULE = ("operation histories (new/cp/mv external+internal/rm/reset/commit/upgrade/purge over 1-2 objects, all layouts, both staging "
         "placements, three objects) generated interactively against the implementation so that sources, globs and destinations hit existing paths; "
